@@ -55,7 +55,7 @@ pub proof fn lemma_chain_next<C: ContentAddrStore>(s: UnsealedState<C>, n: Unsea
 // ---- batch application as seen by block application: batch_env / batch_core are DEFINED in lemmas/batch_def.rs (unit `batch`,
 // which proves apply_tx_batch_impl against them) and declared uninterpreted in lemmas/batch_opaque.rs for the units that only
 // pass them along (here only their frame consequences are used)
-pub open spec fn batch_pre<C: ContentAddrStore>(s: UnsealedState<C>, txx: Seq<Transaction>) -> bool { state_inv(s) && chain_ok(s) && batch_env(s, txx) }
+pub open spec fn batch_pre<C: ContentAddrStore>(s: UnsealedState<C>, txx: Seq<Transaction>) -> bool { state_inv(s) && chain_ok(s) && hinv(s) && batch_env(s, txx) }
 pub open spec fn batch_result<C: ContentAddrStore>(s: UnsealedState<C>, txx: Seq<Transaction>, r: UnsealedState<C>) -> bool {
     batch_core(s, txx, r) && r.network == s.network && r.height == s.height && r.history == s.history && r.pools == s.pools
     && r.fee_multiplier == s.fee_multiplier && state_inv(r) && r.tips.0 <= u128::MAX - 0x1_0000_0000_0000_0000_0000_0000_0000u128
